@@ -13,8 +13,6 @@ content changes, so that `lake build` stays incremental. Nothing is cached acros
 import os
 import time
 
-import importlib
-
 import cxx2lean
 
 # specs of properties whose plugin is owned by another builder: the plugin only has to call
@@ -23,7 +21,6 @@ import cxx2lean
 SPECS = {
     'C06': {
         'id': 'C06',
-        'translator': 'cxx2lean_state',
         'extra_filters': ['EPSILON'],      # anonymous-namespace constant
         'sources': ['src/regression/ransac/RansacIterations.cpp'],
         'imports': ['RomeaModel.Rotation'],       # DoubleConv: the constructor takes `const float & fittingProbability`
@@ -37,12 +34,9 @@ SPECS = {
 def regen_bridge(ctx, spec):
     t0 = time.time()
     pid = spec['id']
-    # two translator modules grown from the same base by two builders: `cxx2lean` (Eigen coefficient-wise expressions, blocks,
-    # std::vector of scalars as List with checked access, counted loops) and `cxx2lean_state` (sequence containers incl. queue /
-    # deque, atomics, chrono durations, unsigned wrap-around, constant folding / unrolling per instantiation); a spec names the
-    # one its functions need (`translator`), phase-1 specs produce byte-identical output under both
-    tr = importlib.import_module(spec.get('translator', 'cxx2lean'))
-    text, tinfo = tr.translate(ctx['repo'], ctx['scratch'], spec)
+    # one translator for every spec; the spec-wide options (`vector_encoding`, `incr_encoding`, `unsigned_wrap`, …) are described in
+    # its module docstring; tools/regen_all_bridges.py re-translates every spec and compares with the committed generated files
+    text, tinfo = cxx2lean.translate(ctx['repo'], ctx['scratch'], spec)
     rel = 'RomeaModel/Generated/Src%s.lean' % pid
     path = os.path.join(ctx['lean'], rel)
     old = open(path).read() if os.path.exists(path) else None
